@@ -6,7 +6,9 @@ package main
 //
 //	base=<hex> hdr=<nil|-|Khex~vhex,vhex+…> ctor=<Get|Delete|PostJSONBody|…|Do|DoBody|DoMP> m=<hex> ct=<hex> tmpl=<hex>: op ; op ; …
 //	ops:  call <params> <body>       params: nil | - | khex=s<vhex>,khex=i<int>    body: nil | j<ahex>:<n> | f- | f<khex>=<vhex>,…
-//	      eval <io index> <fault> <resp>     fault: none|ser|tx|read|dec|dect      resp: ok<vhex>:<k> | bad
+//	      eval <io index> <fault> <resp>     fault: none|ser|tx|read|dec|dect      resp: ok<vhex>:<k>[:<status>] | bad[:<status>]
+//	                                          (<status> = HTTP status of the stub's response, 200 if absent; the property decodes
+//	                                          the body whatever the status is)
 //	      mut (add a header to the request that was sent last) | dh (print DefaultHeader) | sent (transport calls so far)
 //
 // The API talks to a stub http.RoundTripper (no network) that records method, URL, headers and body and injects
@@ -154,9 +156,9 @@ func (s *c17Stub) RoundTrip(r *http.Request) (*http.Response, error) {
 	case s.fault == "read":
 		body = c17FailReader{}
 	case strings.HasPrefix(s.resp, "ok"):
-		parts := strings.SplitN(s.resp[2:], ":", 2)
+		parts := strings.SplitN(s.resp[2:], ":", 3)
 		k := 0
-		if len(parts) == 2 {
+		if len(parts) >= 2 {
 			k, _ = strconv.Atoi(parts[1])
 		}
 		b, _ := json.Marshal(c17Target{V: unhx(parts[0]), K: k})
@@ -164,9 +166,28 @@ func (s *c17Stub) RoundTrip(r *http.Request) (*http.Response, error) {
 	default:
 		body = strings.NewReader("{")
 	}
-	return &http.Response{StatusCode: 200, Status: "200 OK", Proto: "HTTP/1.1", ProtoMajor: 1, ProtoMinor: 1,
+	status := c17RespStatus(s.resp)
+	return &http.Response{StatusCode: status, Status: strconv.Itoa(status) + " " + http.StatusText(status), Proto: "HTTP/1.1", ProtoMajor: 1, ProtoMinor: 1,
 		Header: http.Header{}, Body: io.NopCloser(body), Request: r, ContentLength: -1}, nil
 }
+
+// the HTTP status the stub answers with: last ":"-field of `ok<vhex>:<k>:<status>` / `bad:<status>`, 200 by default
+func c17RespStatus(resp string) int {
+	fs := strings.Split(resp, ":")
+	want := 2
+	if strings.HasPrefix(resp, "ok") {
+		want = 3
+	}
+	if len(fs) == want {
+		if st, err := strconv.Atoi(fs[want-1]); err == nil && st >= 200 && st <= 599 {
+			return st
+		}
+	}
+	return 200
+}
+
+// statuses without redirect semantics in net/http's client (3xx is left out: Client.Do would look for a Location)
+var c17Statuses = []int{200, 201, 202, 204, 400, 401, 404, 409, 500, 503}
 
 func c17ParseHeader(s string) http.Header {
 	if s == "nil" {
@@ -494,10 +515,14 @@ func c17GenBody(rng *rand.Rand, kind int) string {
 }
 
 func c17GenResp(rng *rand.Rand) string {
-	if rng.Intn(6) == 0 {
-		return "bad"
+	st := ""
+	if rng.Intn(2) == 0 {
+		st = ":" + strconv.Itoa(c17Statuses[rng.Intn(len(c17Statuses))])
 	}
-	return "ok" + hx(c17Words[rng.Intn(len(c17Words))]) + ":" + strconv.Itoa(rng.Intn(100)-10)
+	if rng.Intn(6) == 0 {
+		return "bad" + st
+	}
+	return "ok" + hx(c17Words[rng.Intn(len(c17Words))]) + ":" + strconv.Itoa(rng.Intn(100)-10) + st
 }
 
 func c17Head(base, hdr, ctor, m, ct, tmpl string) string {
@@ -536,7 +561,11 @@ func c17Gen(tier string, rng *rand.Rand, emit func(string)) map[string]interface
 						m := c17Methods[(hi+evals)%8]
 						ops := []string{"sent", "call " + hx("id") + "=i7," + hx("name") + "=s" + hx("id") + " " + body, "sent"}
 						for e := 0; e < evals; e++ {
-							ops = append(ops, "eval 0 "+f+" ok"+hx("r")+":"+strconv.Itoa(e), "sent")
+							st := ""
+							if (hi+e)%2 == 1 {
+								st = ":" + strconv.Itoa(c17Statuses[(exhaustive+e)%len(c17Statuses)])
+							}
+							ops = append(ops, "eval 0 "+f+" ok"+hx("r")+":"+strconv.Itoa(e)+st, "sent")
 						}
 						ops = append(ops, "mut", "dh")
 						emit(c17Head(c17Bases[hi%len(c17Bases)], hdr, ctor, m, c17CTypes[hi%len(c17CTypes)], "users/{id}/n/{name}") + strings.Join(ops, " ; "))
